@@ -35,7 +35,8 @@ def main():
             step = max(1, a.n // max(a.fresh, 1))
             for i in range(0, a.n, step):
                 plan = engine.generate(util.mix(a.seed, prop, i), prop, "quick", i)
-                C[str(i)] = orch.fresh_exec(plan, scratch).get("digest", "?")
+                r = orch.fresh_exec(plan, scratch)
+                C[str(i)] = r.get("digest", r.get("status", "?"))
             ok = len(A) == a.n and A == B and A == D and all(A[k] == v for k, v in C.items())
             ndist = len(set(A.values()))
             print(f"{prop}: {a.n} seeds  1-worker==16-workers: {A == B}  ==hashseed1: {A == D}  ==fresh({len(C)}): {all(A[k] == v for k, v in C.items())}  distinct logs: {ndist}  -> {'ok' if ok else 'MISMATCH'}", flush=True)
